@@ -15,6 +15,14 @@ func (rt *runtime) cmplEvaluateNodeProgram(node *nodeProgram, eval bool) Value {
 	rt.cmplFunctionDeclaration(node.functionList)
 	rt.cmplVariableDeclaration(node.varList)
 	rt.scope.eval = wasEval
+	if eval {
+		// Direct eval code runs in the caller's frame: positions are in the eval source while it
+		// runs, and in the caller's source (at the eval call) again afterwards.
+		file, offset := rt.scope.frame.file, rt.scope.frame.offset
+		defer func() {
+			rt.scope.frame.file, rt.scope.frame.offset = file, offset
+		}()
+	}
 	rt.scope.frame.file = node.file
 	value := rt.cmplEvaluateNodeStatementList(node.body)
 	if value.isEmpty() {
